@@ -121,9 +121,11 @@ Collapse(D, s, prec, m) ==
          hits == {j \in DOMAIN prec : prec[j] \in present}
      IN IF hits = {} THEN prec[Len(prec)] ELSE prec[Min(hits)]]
 
-\* default re-indexing: the k-th smallest *listed* value (a value with an entry) -> k - 1
+\* default re-indexing: the k-th smallest *listed* value -> k - 1. In a well-formed index the listed values are exactly
+\* the values other than the common one that occur in the dense array, which is how the contract (a statement about
+\* dense arrays) has to put it: an entry without rows lists nothing.
 DefaultMapping(rep) ==
-  LET listed == SortedSeq({rep.ents[e].k[1] : e \in DOMAIN rep.ents})
+  LET listed == SortedSeq(RangeOf(Abs(rep)) \ {rep.common})
   IN [j \in DOMAIN listed |-> <<listed[j], j - 1>>]
 
 \* column_stack of 1-D / 2-D inputs (dense arrays Ds with shapes ss)
